@@ -7,7 +7,8 @@ import warnings
 from . import build, keys as K
 from .common import MachineryError, import_pgpy, octets
 
-NAMES = {'A': ('Alice A', 'a@x.org'), 'B': ('Bob B', 'b@x.org')}
+# the second identity's name and address CONTAIN the first one's: looking an identity up by name must not hit its neighbour
+NAMES = {'A': ('Alice', 'alice@x.org'), 'B': ('Alice Liddell', 'alice@x.org.uk')}
 PWD = 'cert life passphrase'
 
 
